@@ -21,6 +21,7 @@ mxArray* makeObject(int objId);
 int objectId(const mxArray* a);
 bool isObject(const mxArray* a);
 std::string charValue(const mxArray* a);   // contents of a char array
+mxArray* makeCharColumn(const std::string& s);   // N-by-1 char array (what `s(:)` is in MATLAB)
 
 // MATLAB frees every array a MEX call created and did not return; the player brackets each
 // MATLAB-level operation with these (nesting allowed, arrays die when the outermost ends).
